@@ -22,6 +22,7 @@ type SpecCtx struct {
 	RNames   []string
 	UseLocals bool // resolve plain names to the current value of the local of that name (loop invariants)
 	ParamsFirst bool // postconditions: parameter names mean entry values; other names fall back to locals
+	AtCallSite bool // evaluating a callee's contract in a caller: trace functions speak about the callee's own path
 	Frame    *Frame
 	Bound    map[string]*SV
 	InOld    bool
@@ -556,6 +557,9 @@ func (e *Engine) evalCall(s *State, c *SpecCtx, n *ast.CallExpr) *SV {
 	case "ttype":
 		return svInt(app(fname, arg(0).V.L[0]))
 	case "ncalls":
+		if c.AtCallSite {
+			panic(clauseNotApplicable{"ncalls at call site"})
+		}
 		// ncalls("callee key"): number of calls to that callee on this path (trace ghost)
 		lit := n.Args[0].(*ast.BasicLit)
 		name, _ := strconv.Unquote(lit.Value)
@@ -567,6 +571,9 @@ func (e *Engine) evalCall(s *State, c *SpecCtx, n *ast.CallExpr) *SV {
 		}
 		return svInt(num(int64(cnt)))
 	case "callret":
+		if c.AtCallSite {
+			panic(clauseNotApplicable{"callret at call site"})
+		}
 		// callret("callee key", k, i): i-th result of the k-th call to that callee on this path
 		lit := n.Args[0].(*ast.BasicLit)
 		name, _ := strconv.Unquote(lit.Value)
@@ -586,6 +593,9 @@ func (e *Engine) evalCall(s *State, c *SpecCtx, n *ast.CallExpr) *SV {
 		}
 		panic(clauseNotApplicable{"callret " + name})
 	case "callarg":
+		if c.AtCallSite {
+			panic(clauseNotApplicable{"callarg at call site"})
+		}
 		// callarg("callee key", k, i): i-th argument (receiver = 0) of the k-th call to that callee on this path
 		lit := n.Args[0].(*ast.BasicLit)
 		name, _ := strconv.Unquote(lit.Value)
